@@ -56,6 +56,9 @@ pub enum LockFault {
     WrongBf { mode: u8 },
     /// wire corruption of the pair: 0 lock, 1 secret, 2 index
     Corrupt { field: u8 },
+    /// the right SECRET under another index whose digest is also a canonical scalar: a well-formed
+    /// hash pair (it decodes) whose lock is not the committed one, with the right blinding factor
+    OtherIndex,
     /// a foreign / fresh pair with the blinding factor shifted by (right lock - its lock): opens the
     /// commitment if the two generators of the commitment parameters are related (g = h)
     CompensatedBf { pick: u64 },
@@ -1432,6 +1435,7 @@ impl<'a> World<'a> {
             LockFault::WrongBf { .. } => "wrong-blinding-factor",
             LockFault::Corrupt { .. } => "corrupt-pair-encoding",
             LockFault::CompensatedBf { .. } => "compensated-blinding-factor",
+            LockFault::OtherIndex => "same-secret-other-index",
         }
     }
 
@@ -1488,6 +1492,27 @@ impl<'a> World<'a> {
                     }
                 };
                 (right_pair.clone(), refc::scb(&nb).to_vec())
+            }
+            Some(LockFault::OtherIndex) => {
+                let secret = right_pair[32..64].to_vec();
+                let idx0 = right_pair[64];
+                let mut found = None;
+                for d in 1..=255u8 {
+                    let i = idx0.wrapping_add(d);
+                    if let Some(l) = refc::rev_lock(&secret, i) {
+                        found = Some((l, i));
+                        break;
+                    }
+                }
+                match found {
+                    Some((l, i)) => {
+                        let mut b = refc::scb(&l).to_vec();
+                        b.extend_from_slice(&secret);
+                        b.push(i);
+                        (b, right_bf.clone())
+                    }
+                    None => (right_pair.clone(), right_bf.clone()),
+                }
             }
             Some(LockFault::CompensatedBf { pick }) => {
                 let cands: Vec<&Vec<u8>> = self.lockmsgs.iter().filter(|(c, p, _, _)| !(*c == ci && *p == pay)).map(|(_, _, a, _)| a).collect();
